@@ -1209,9 +1209,25 @@ func runReader(file []byte, src *source, poff int, limit int, stableCheck bool) 
 	return res
 }
 
+// rowsTab registers the distinct row lists of the current case: a Read event
+// refers to its rows by id, the list itself is logged once (event Rows).
+var rowsTab map[string]int
+
+func rowsID(rows []interface{}) int {
+	b, _ := json.Marshal(rows)
+	k := string(b)
+	if id, ok := rowsTab[k]; ok {
+		return id
+	}
+	id := len(rowsTab) + 1
+	rowsTab[k] = id
+	emit(event{"ev": "Rows", "id": id, "rows": rows})
+	return id
+}
+
 func (r readResult) event(mode string, extra event) event {
 	e := event{"ev": "Read", "mode": mode, "open": r.openRes, "openerr": r.openErr, "rowsrep": r.rowsRep, "nexts": r.nexts,
-		"rows": r.rows, "haserr": r.hasErr, "finalerr": r.finalErr, "panic": r.pan, "stable": r.stable, "exclzero": r.exclZero,
+		"rowsid": rowsID(r.rows), "nrows": len(r.rows), "haserr": r.hasErr, "finalerr": r.finalErr, "panic": r.pan, "stable": r.stable, "exclzero": r.exclZero,
 		"srccalls": r.srcCalls, "faulted": r.faulted}
 	for k, v := range extra {
 		e[k] = v
@@ -1289,10 +1305,7 @@ func runReads(c jobCase, file []byte, expectRows int) {
 			}
 			for _, l := range ls {
 				res := runReader(file[:l], &source{data: file[:l]}, c.Poff, limit, false)
-				e := res.event("trunc", event{"len": l, "full": len(file)})
-				e["rows"] = []interface{}{} // only the verdict matters; keep the trace small
-				e["nrows"] = len(res.rows)
-				emit(e)
+				emit(res.event("trunc", event{"len": l, "full": len(file)}))
 			}
 		}
 	}
@@ -1319,6 +1332,7 @@ func runCase(c jobCase) {
 	if c.Codec == "" {
 		c.Codec = "snappy"
 	}
+	rowsTab = map[string]int{}
 	emit(event{"ev": "Reset", "case": c.ID, "schema": schemaRoot, "cols": cols, "max": c.Page, "codec": c.Codec, "codecn": codecNum[c.Codec], "poff": c.Poff})
 	if c.Foreign != nil {
 		runForeign(c)
